@@ -66,9 +66,11 @@ IndexExprsX ==
      "[*x, 1][0]", "[*x, 1][1]", "(*x, 1)[0]", "(*x, 1, 'a')[1]", "(*x, 1, 'a')[0]", "(None, *x, 1)[1]", "(None, *x, 1)[2]",
      "(None, *x)[1]", "(*x, 1)[-1]", "(*x, 1)[-2]", "(*x, 1, 'a')[-2]", "(*x, 1, 'a')[-3]", "[*x, None][0]", "(*x, None)[0]",
      "[1, *x, None][1]", "[1, *x, None][2]", "[1, *x, None][-2]", "(*x, *x, 1)[0]", "[*x, 1][0:1]", "(*x, 1, 'a')[0:2]",
-     "(1, *x)[-1]", "(1, 'a', *x)[2]", "[*x][0]", "(*x,)[-1]"}
+     "(1, *x)[-1]", "(1, 'a', *x)[2]", "[*x][0]", "(*x,)[-1]",
+     "(*x, 'a', *x)[1]", "[*x, None, *x, 1][1]", "(1, *x, 'a', *x)[1]", "(1, *x, 'a', *x)[2]", "(*x, 'a', *x)[0]", "(*x, 'a', *x)[-1]",
+     "(*x, None, *x)[-2]", "[*x, None, *x, 1][2]"}
 IndexExprsY ==
-    {"[*x, y][0]", "(*x, y)[0]", "(*x, y)[1]", "(y, *x, y)[1]", "(y, *x)[1]", "(*x, y)[-1]", "(*x, y)[-2]", "(y, *x, y)[-2]",
+    {"(*x, y, *x)[1]", "(*x, y, *x)[0]", "[*x, y][0]", "(*x, y)[0]", "(*x, y)[1]", "(y, *x, y)[1]", "(y, *x)[1]", "(*x, y)[-1]", "(*x, y)[-2]", "(y, *x, y)[-2]",
      "[*x, y][0:1]", "[y, *x][-1]"}
 \* the same through a local / through the mutated list (one line, several statements)
 IndexLinesX ==
@@ -76,6 +78,14 @@ IndexLinesX ==
      "v = (*x, 1, 'a'); v = v[-3]", "v = (None, *x, 1); v = v[1]", "m.extend(x); m.append(1); v = m[0]",
      "m.extend(x); m.append(None); v = m[1]", "m += x; m.append('a'); v = m[0]", "m.append(1); m.extend(x); m.append(None); v = m[1]",
      "m.extend(x); m.append(1); v = m[-1]", "m.extend(x); m.append(1); v = m[-2]", "m.extend(x); m.append(1); v = m[0:1]"}
+\* displays with TWO unpacked parts and single members between / around them, unpacked into target lists (the impl
+\* _unpack_sequence_value), iterated with a tuple target, and indexed
+TwoStarX == {"(*x, 'a', *x)", "[*x, None, *x, 1]", "(1, *x, 'a', *x)", "(*x, None, *x)", "[*x, 'a', *x]", "(*x, 1, 'a', *x)",
+             "(*x, None, *x, None, *x)", "(None, *x, 1, *x, 'a')"}
+TwoStarY == {"(*x, y, *x)", "[*x, y, *x, 1]", "(1, *x, y, *x)"}
+TwoStarTargets == {"a, b", "a, b, c", "a, *b", "a, b, *c"}
+TwoStarLinesX == {"for a, b in [(*x, 'a', *x)]: pass", "for a, b, c in [(*x, None, *x)]: pass", "for a, b in ((1, *x, 'a', *x),): pass",
+                  "v = (*x, 'a', *x); a, b, c = v", "v = [*x, None, *x, 1]; a, b = v[0], v[1]"}
 IndexLinesY == {"v = [*x, y]; v = v[0]", "m.extend(x); m.append(y); v = m[0]", "v = (*x, y); v = v[1]", "v = (y, *x, y); v = v[1]"}
 
 (***************************************************************************)
@@ -170,17 +180,17 @@ PatternsX ==
      "a if a", "int() if ok", "_ if isinstance(x, str)", "(a, b) if a", "[a, *rest] if rest", "str() if x"}
 PatternsY == {"int() if y", "a if y is None", "_ if isinstance(y, int)", "(a, b) if a == y", "_ if x == y"}
 
-UnpackTargets == {"a, b", "a, *rest", "(a, b), c", "[a, b]", "a, b, c", "*rest, a", "a, (b, *rest)", "v, x", "a, *rest, b"}
-UnpackExprsX == {"{**({'a': 1} if x else {}), 'b': 2}", "d", "{**x}", "x", "x[0]", "(x, 1)", "[x, None]", "tolist(x)", "pair(x, 1)", "swap(x)", "x[0:2]", "(*x, 1)", "list(x)", "tuple(x)",
+UnpackTargets == {"a, b, *c", "a, *b", "a, b", "a, *rest", "(a, b), c", "[a, b]", "a, b, c", "*rest, a", "a, (b, *rest)", "v, x", "a, *rest, b"}
+UnpackExprsX == TwoStarX \cup {"{**({'a': 1} if x else {}), 'b': 2}", "d", "{**x}", "x", "x[0]", "(x, 1)", "[x, None]", "tolist(x)", "pair(x, 1)", "swap(x)", "x[0:2]", "(*x, 1)", "list(x)", "tuple(x)",
                  "x.split()", "first(x)", "(x, (1, 'a'))", "[*x]", "(x or (1, 2))", "list(x.items())", "(x, x)", "x[1:]", "sorted(x)",
                  "divmod(x, 2)", "(1, *x)", "Pt(x, 1).both()", "(a, b)", "rest", "m", "(b, a)", "x.popitem()"}
-UnpackExprsY == {"(x, y)", "pair(x, y)", "(x, *y)", "(*x, y)", "x + y", "swap(pair(x, y))", "[x, y]", "(y, x)", "(x if x else y)",
+UnpackExprsY == TwoStarY \cup {"(x, y)", "pair(x, y)", "(x, *y)", "(*x, y)", "x + y", "swap(pair(x, y))", "[x, y]", "(y, x)", "(x if x else y)",
                  "(x, (y, 1))", "y"}
 AugOps == {"+=", "*=", "-=", "|="}
 AugTargets == {"v", "x", "a"}
 AugExprsX == {"1", "x", "'a'", "[x]", "(x,)", "1.5", "v", "x[0]", "[None]", "2"}
 AugExprsY == {"y", "[y]", "(y,)", "(x, y)"}
-MutLinesX == IndexLinesX \cup {"m.append(x)", "m.append(1)", "m.extend(x)", "m.append(None)", "m += [x]", "m.extend([x, 1])",
+MutLinesX == IndexLinesX \cup TwoStarLinesX \cup {"m.append(x)", "m.append(1)", "m.extend(x)", "m.append(None)", "m += [x]", "m.extend([x, 1])",
               "d['k'] = x", "d['j'] = 1", "d.setdefault('k', x)", "d.update({'z': x})", "d.pop('k', None)", "d['k'] = [x]",
               "d.update(k=x)", "del d['k']", "m.append((x, 1))", "m.append([x])", "d['k'] = None",
               "d.update({'a': 1} if x else {})", "d.setdefault('a', 1)",
@@ -210,7 +220,10 @@ CONSTANTS MaxStmts, MaxDepth,
 \* the catalogues of the slice
 ExprsXS == IF Slice = "narrow" THEN {"x"} ELSE IF Slice = "index" THEN IndexExprsX ELSE ExprsX
 ExprsYS == IF Slice = "index" THEN IndexExprsY ELSE ExprsY
-MutXS == IF Slice = "index" THEN IndexLinesX ELSE MutLinesX
+MutXS == IF Slice = "index" THEN IndexLinesX \cup TwoStarLinesX ELSE MutLinesX
+UnpackTS == IF Slice = "index" THEN TwoStarTargets ELSE UnpackTargets
+UnpackXS == IF Slice = "index" THEN TwoStarX ELSE UnpackExprsX
+UnpackYS == IF Slice = "index" THEN TwoStarY ELSE UnpackExprsY
 MutYS == IF Slice = "index" THEN IndexLinesY ELSE MutLinesY
 \* in the indexing slice y only supplies one more element: a type whose only member (None) lies outside every element type
 TypesY == IF Slice = "index" THEN {Typed("NoneType")} ELSE ParamTypes
@@ -271,9 +284,9 @@ AddSimple ==
                            \/ \E e \in YSet(ExprsYS) : PushStmt(Line(e), TRUE)
        \/ pick = "return" /\ \/ \E e \in ExprsXS : PushStmt(Jump("return " \o e), FALSE)
                              \/ \E e \in YSet(ExprsYS) : PushStmt(Jump("return " \o e), TRUE)
-       \/ pick = "unpack" /\ pend = << >> /\ \E t \in UnpackTargets : More(t, FALSE)
-       \/ pick = "unpack" /\ pend # << >> /\ \/ \E e \in UnpackExprsX : PushStmt(Line(pend[1] \o " = " \o e), FALSE)
-                                             \/ \E e \in YSet(UnpackExprsY) : PushStmt(Line(pend[1] \o " = " \o e), TRUE)
+       \/ pick = "unpack" /\ pend = << >> /\ \E t \in UnpackTS : More(t, FALSE)
+       \/ pick = "unpack" /\ pend # << >> /\ \/ \E e \in UnpackXS : PushStmt(Line(pend[1] \o " = " \o e), FALSE)
+                                             \/ \E e \in YSet(UnpackYS) : PushStmt(Line(pend[1] \o " = " \o e), TRUE)
        \/ pick = "aug" /\ pend = << >> /\ \E t \in AugTargets, op \in AugOps : More(t \o " " \o op \o " ", FALSE)
        \/ pick = "aug" /\ pend # << >> /\ \/ \E e \in AugExprsX : PushStmt(Line(pend[1] \o e), FALSE)
                                           \/ \E e \in YSet(AugExprsY) : PushStmt(Line(pend[1] \o e), TRUE)
